@@ -73,6 +73,7 @@ FEAT_ID = {"g_force": 1, "pc1": 2, "pc2": 3, "image": 4,
 TRACES = ["fl1_raw", "fl1_median"]
 F_HIER = "C07-hierarchy-export-basinmap"
 F_PROXY = "C07-proxy-shape-trace-contour"
+F_RAGGED = "C07-proxy-ragged-array"
 
 
 # --------------------------------------------------------------------------
@@ -217,15 +218,15 @@ def build_files(case, d, truth):
         info = dict(path=path, err=None, mapped=False, proxy=False,
                     cascade=False)
         try:
-            srcs = [st["src"]] if op == "export" else [
+            srcs = [st["src"]] if op in ("export", "copy") else [
                 b["src"] for b in st["basins"]]
             if any(files[j]["err"] for j in srcs):
                 info["cascade"] = True
                 raise ValueError("a source file could not be created")
             if any(files[j]["proxy"] for j in srcs):
                 info["proxy"] = True
-            if op == "export" or any(b.get("map") is not None
-                                     for b in st["basins"]):
+            if op == "export" or (op == "write" and any(
+                    b.get("map") is not None for b in st["basins"])):
                 info["proxy"] = True
             if op == "write":
                 # hand-written file: innate features + store_basin calls
@@ -250,6 +251,8 @@ def build_files(case, d, truth):
                 meta = gen.base_meta(with_fl=with_fl, run_id=rid)
                 innate = {}
                 avail = set()
+                via_file = set()
+                via_int = set()
                 with RTDCWriter(path, mode="append") as hw:
                     hw.store_metadata(meta)
                     for unit in st["feats"]:
@@ -276,6 +279,7 @@ def build_files(case, d, truth):
                                 basin_map=np.array(b["map"], dtype=np.uint64),
                                 internal_data=idata)
                             avail |= set(expand(b["feats"]))
+                            via_int |= set(expand(b["feats"]))
                             info["mapped"] = True
                             continue
                         bmap = None
@@ -296,12 +300,15 @@ def build_files(case, d, truth):
                                          else list(b["feats"])),
                             basin_map=bmap, verify=verify)
                         if b["feats"] is None:
-                            avail |= src["avail"]
+                            got = set(src["avail"])
                         else:
-                            avail |= set(expand(b["feats"])) & src["avail"]
+                            got = set(expand(b["feats"])) & src["avail"]
+                        avail |= got
+                        via_file |= got
                 if st.get("rechunk"):
                     rechunk(path, st["rechunk"])
-                info.update(omap=omap, innate=innate, avail=avail, rid=rid)
+                info.update(omap=omap, innate=innate, avail=avail, rid=rid,
+                            via_file=via_file, via_int=via_int)
             elif op == "export":
                 src = files[st["src"]]
                 idx = list(range(len(src["omap"])))
@@ -332,11 +339,44 @@ def build_files(case, d, truth):
                     if isinstance(rid, bytes):
                         rid = rid.decode("utf-8")
                 info.update(omap=omap, innate=innate,
+                            via_file=set(src["avail"]), via_int=set(),
                             avail=set(src["avail"]) | set(innate),
                             rid=rid, mapped=(
                                 info["mapped"] or src["mapped"]
                                 or idx != list(range(len(src["omap"])))))
                 info["hier"] = bool(st["pfilts"])
+            elif op == "copy":
+                # compress / repack / rtdc_copy of a (referrer) file
+                src = files[st["src"]]
+                how = st["how"]
+                if how == "compress":
+                    from dclab.cli import compress
+                    compress(path_in=src["path"], path_out=path)
+                elif how == "repack":
+                    from dclab.cli import repack
+                    repack(path_in=src["path"], path_out=path)
+                else:
+                    import h5py
+                    from dclab.rtdc_dataset import rtdc_copy
+                    with h5py.File(src["path"]) as h5, \
+                            h5py.File(path, "w") as hc:
+                        rtdc_copy(src_h5file=h5, dst_h5file=hc,
+                                  features="scalar")
+                if how == "scalar":
+                    keep = set(SCALARS)
+                    innate = {k: v for k, v in src["innate"].items()
+                              if k in keep}
+                    avail = set(innate) | (src["via_int"] & keep) \
+                        | src["via_file"]
+                    via_int = src["via_int"] & keep
+                else:
+                    innate = dict(src["innate"])
+                    avail = set(src["avail"])
+                    via_int = set(src["via_int"])
+                info.update(omap=list(src["omap"]), innate=innate,
+                            avail=avail, rid=src["rid"],
+                            mapped=src["mapped"], via_int=via_int,
+                            via_file=set(src["via_file"]))
             else:
                 raise ValueError("unknown op %r" % op)
         except BaseException as e:  # the step itself failed
@@ -345,6 +385,8 @@ def build_files(case, d, truth):
             info.setdefault("innate", {})
             info.setdefault("avail", set())
             info.setdefault("rid", "?")
+            info.setdefault("via_file", set())
+            info.setdefault("via_int", set())
         files.append(info)
     return files
 
@@ -363,7 +405,7 @@ def py_index(ix):
         return np.array(ix[1], dtype=bool)
     if t == "arr":
         return np.array(ix[1], dtype=np.int64)
-    if t == "all":
+    if t in ("all", "iter", "array"):
         return slice(None)
     raise ValueError(ix)
 
@@ -401,7 +443,19 @@ def observe(ds, feat, ix):
     except BaseException as e:
         return 4, [], "%s: %s" % (type(e).__name__, str(e)[:160])
     try:
-        res = obj[py_index(ix)]
+        if ix[0] == "iter":
+            # iteration over the feature object
+            res = [v for v in obj]
+        elif ix[0] == "array":
+            # conversion with numpy (ragged features: array of objects)
+            if feat == "contour":
+                res = np.array(obj, dtype=object)
+            else:
+                res = np.asarray(obj)
+            if len(res.shape) < 1 or res.shape[0] != len(obj):
+                raise ValueError("np.array returned shape %r" % (res.shape,))
+        else:
+            res = obj[py_index(ix)]
     except IndexError as e:
         return 2, [], "%s: %s" % (type(e).__name__, str(e)[:160])
     except BaseException as e:
@@ -492,6 +546,8 @@ def _upstream_has_basins(case, fid):
     st = case["steps"][fid]
     if st["op"] == "write":
         return any(b["kind"] == "file" for b in st["basins"])
+    if st["op"] == "copy":
+        return _upstream_has_basins(case, st["src"])
     return True     # an exported file always has at least one basin
 
 
@@ -530,6 +586,9 @@ def classify_query(case, files, q, st, msg):
             return F_PROXY
         return None
     # (a) trace / sliced contour through a *mapped* basin raises
+    if st == 4 and info["proxy"] and feat == "contour" and \
+            ix[0] == "array":
+        return F_RAGGED
     if st == 4 and info["proxy"]:
         if feat.startswith("trace/"):
             return F_PROXY
@@ -540,6 +599,9 @@ def classify_query(case, files, q, st, msg):
     k = fid
     while True:
         stp = case["steps"][k]
+        if stp["op"] == "copy":
+            k = stp["src"]
+            continue
         if stp["op"] != "export":
             return None
         if stp["pfilts"] and _upstream_has_basins(case, stp["src"]) \
@@ -603,8 +665,12 @@ def gen_index(rng, n, free=True):
         if not free:
             return ["all"]
         return ["int", rng.choice([n, -n - 1, n + 3])]
-    if r < 0.4:
+    if r < 0.36:
         return ["all"]
+    if r < 0.40:
+        return ["iter"]
+    if r < 0.44:
+        return ["array"]
     if r < 0.62:
         def end():
             return rng.choice([None, rng.randint(-n - 2, n + 2)])
@@ -626,7 +692,90 @@ def sub(rng, xs, pmin=0):
     return sorted(rng.sample(xs, k), key=xs.index)
 
 
+def gen_nonmonotone(rng, n):
+    """permutation, or repeats + skips in non-monotone order; the set of
+    indices is often contiguous"""
+    r = rng.random()
+    if r < 0.4:
+        m = list(range(n))
+        while n > 1 and m == sorted(m):
+            rng.shuffle(m)
+        return m
+    if r < 0.7:
+        lo = rng.randrange(n)
+        hi = rng.randrange(lo, n)
+        m = list(range(lo, hi + 1))
+        m += [rng.randint(lo, hi) for _ in range(rng.randint(0, 3))]
+        rng.shuffle(m)
+        if len(m) > 1 and m == sorted(m):
+            m.reverse()
+        return m
+    m = [rng.randrange(n) for _ in range(rng.randint(2, n + 3))]
+    if m == sorted(m):
+        m.reverse()
+    return m
+
+
+def gen_focus_case(rng):
+    """A mapped referrer with a non-monotone map (optionally exported once
+    more, from the file or a hierarchy child) whose image / mask / trace /
+    contour are read by slices, masks, arrays, [:], iteration, np.array."""
+    seed = rng.randrange(10 ** 6)
+    n = rng.choice([3, 4, 5, 8, 13])
+    kinds = ["scalar"] + sub(rng, ["image", "mask", "contour", "trace"], 2)
+    units = units_of(kinds)
+    rc = rng.choice([None, 2, 3]) if n > 3 else None
+    steps = [dict(op="write", feats=list(units), basins=[], rechunk=rc)]
+    m = gen_nonmonotone(rng, n)
+    steps.append(dict(op="write", feats=[], basins=[dict(
+        kind="file", src=0, map=m, feats=None, name=None, verify=False)],
+        decoy=[]))
+    sizes = [n, len(m)]
+    r = rng.random()
+    if r < 0.3:
+        filt = gen_filter(rng, len(m))
+        steps.append(dict(op="export", src=1, pfilts=[], filt=filt, feats=[]))
+        sizes.append(sum(filt))
+    elif r < 0.5:
+        pf = gen_filter(rng, len(m))
+        filt = gen_filter(rng, sum(pf))
+        steps.append(dict(op="export", src=1, pfilts=[pf], filt=filt,
+                          feats=[]))
+        sizes.append(sum(filt))
+    elif r < 0.6:
+        steps.append(dict(op="copy", src=1, how=rng.choice(
+            ["compress", "repack"])))
+        sizes.append(len(m))
+    names = [nm for nm in expand(units) if nm not in SCALARS]
+    queries = []
+    for fid in range(1, len(steps)):
+        ns = sizes[fid]
+        for _ in range(rng.randint(4, 7)):
+            feat = rng.choice(names)
+            r = rng.random()
+            if r < 0.3:
+                ix = ["all"]
+            elif r < 0.55:
+                ix = ["slice", rng.choice([None, 0, 1]),
+                      rng.choice([None, ns, ns - 1, -1]),
+                      rng.choice([None, 1, 2])]
+            elif r < 0.75:
+                ix = ["bool", [rng.random() < .7 for _ in range(ns)]]
+            elif r < 0.85:
+                ix = ["arr", [rng.randrange(-ns, ns) for _ in range(
+                    rng.randint(1, ns + 1))]] if ns else ["all"]
+            elif r < 0.93:
+                ix = ["iter"]
+            else:
+                ix = ["array"]
+            queries.append([fid, feat, ix])
+    return dict(seed=seed, n=n, kinds=kinds, steps=steps,
+                move=rng.random() < 0.2, queries=queries)
+
+
 def gen_case(rng, thorough=False):
+    if rng.random() < 0.22:
+        return gen_focus_case(rng)
     seed = rng.randrange(10 ** 6)
     big = rng.random() < (0.15 if thorough else 0.08)
     n = rng.choice([1, 2, 3, 5, 8, 13, 21]) if not big else rng.choice(
@@ -645,6 +794,8 @@ def gen_case(rng, thorough=False):
     avail = []          # units readable from the file
     innate = []         # units stored in the file
     free = []           # True: features not stored go through a mapped proxy
+    vfile = []          # units readable through file basins
+    vint = []           # units readable through internal basins
     rc = rng.choice([None, None, 2, 3, 7]) if n > 3 else None
     steps.append(dict(op="write", feats=list(units), basins=[], rechunk=rc))
     sizes.append(n)
@@ -652,6 +803,8 @@ def gen_case(rng, thorough=False):
     avail.append(list(units))
     innate.append(list(units))
     free.append(False)
+    vfile.append([])
+    vint.append([])
     nsteps = rng.randint(1, 6 if thorough else 5)
     for _ in range(nsteps):
         k = len(steps)
@@ -660,7 +813,25 @@ def gen_case(rng, thorough=False):
         ns = sizes[src]
         av = avail[src]
         r = rng.random()
-        if r < 0.42:
+        if r < 0.09 and src > 0:
+            how = rng.choice(["compress", "repack", "scalar"])
+            steps.append(dict(op="copy", src=src, how=how))
+            sizes.append(ns)
+            leaf.append(leaf[src])
+            if how == "scalar":
+                inn = [u for u in innate[src] if u in SCALARS]
+                vi = [u for u in vint[src] if u in SCALARS]
+                avail.append([u for u in units
+                              if u in inn or u in vi or u in vfile[src]])
+                innate.append(inn)
+                vint.append(vi)
+            else:
+                avail.append(list(av))
+                innate.append(list(innate[src]))
+                vint.append(list(vint[src]))
+            vfile.append(list(vfile[src]))
+            free.append(free[src])
+        elif r < 0.45:
             pf = []
             cur = ns
             if rng.random() < 0.45:
@@ -683,6 +854,8 @@ def gen_case(rng, thorough=False):
             avail.append(list(av))
             innate.append(list(innate[src]) if feats is None else list(feats))
             free.append(True)
+            vfile.append(list(av))
+            vint.append([])
         elif r < 0.58:
             # "same" referrer: a part of the features lives in the basin
             sc = [u for u in av if u in SCALARS]
@@ -699,6 +872,8 @@ def gen_case(rng, thorough=False):
                           or u in (av if bfe is None else bfe)])
             innate.append(list(feats))
             free.append(False)
+            vfile.append(list(av if bfe is None else bfe))
+            vint.append([])
         elif r < 0.9:
             m = gen_map(rng, ns, steps[src].get("rechunk"))
             if ns == 0:
@@ -728,6 +903,8 @@ def gen_case(rng, thorough=False):
             avail.append([u for u in units if u in feats or u in got])
             innate.append(list(feats))
             free.append(True)
+            vfile.append(list(got))
+            vint.append([])
         else:
             # internal basin: a table of `rows` of the source, mapped
             if ns == 0:
@@ -742,17 +919,21 @@ def gen_case(rng, thorough=False):
             basins = [dict(kind="internal", src=src, rows=rows, map=m,
                            feats=ifeats)]
             got = list(ifeats)
+            gfile = []
             if rng.random() < 0.5:
                 basins.append(dict(kind="file", src=src,
                                    map=[rows[j] for j in m], feats=None,
                                    name=None, verify=False))
                 got += av
+                gfile = list(av)
             steps.append(dict(op="write", feats=feats, basins=basins))
             sizes.append(len(m))
             leaf.append(False)
             avail.append([u for u in units if u in feats or u in got])
             innate.append(list(feats))
             free.append(True)
+            vfile.append(gfile)
+            vint.append(list(ifeats))
     # queries: every file gets some, later files more
     queries = []
     allnames = expand(units)
@@ -798,6 +979,10 @@ def r_index(ix):
         return "(IInt %s)" % common.zlit(ix[1])
     if t == "all":
         return "(ISlice None None None)"
+    if t == "iter":
+        return "AIter"
+    if t == "array":
+        return "AArray"
     if t == "slice":
         return "(ISlice %s %s %s)" % tuple(r_opt(x, common.zlit)
                                            for x in ix[1:4])
@@ -851,6 +1036,10 @@ def render(case):
                                                 common.clist(innate),
                                                 common.clist(rb)))
             omaps.append(omap)
+        elif st["op"] == "copy":
+            omaps.append(list(omaps[st["src"]]))
+            keep = [1, 2, 3] if st["how"] == "scalar" else list(range(1, 9))
+            steps.append("(SCopy %d %s)" % (st["src"], common.zlist(keep)))
         else:
             idx = list(range(len(omaps[st["src"]])))
             for pf in st["pfilts"] + [st["filt"]]:
@@ -860,7 +1049,10 @@ def render(case):
                 st["src"], common.clist([common.blist(pf)
                                          for pf in st["pfilts"]]),
                 common.blist(st["filt"]), r_opt(st["feats"], r_feats)))
-    qs = ["(%d, %d, %s)" % (q[0], FEAT_ID[q[1]], r_index(q[2]))
+    def r_access(ix):
+        r = r_index(ix)
+        return r if r in ("AIter", "AArray") else "(AIndex %s)" % r
+    qs = ["(%d, %d, %s)" % (q[0], FEAT_ID[q[1]], r_access(q[2]))
           for q in case["queries"]]
     return "(%s, %s)" % (common.clist(steps), common.clist(qs))
 
@@ -899,6 +1091,8 @@ def run(run):
         for st in c["steps"]:
             if st["op"] == "export":
                 run.count("export:child%d" % len(st["pfilts"]))
+            elif st["op"] == "copy":
+                run.count("copy:" + st["how"])
             else:
                 kinds = [b["kind"] + ("" if b.get("map") is not None
                                       else "-same") for b in st["basins"]]
@@ -928,6 +1122,8 @@ def chain_depth_hist(cases):
         for st in c["steps"]:
             if st["op"] == "export":
                 depth.append(depth[st["src"]] + 1)
+            elif st["op"] == "copy":
+                depth.append(depth[st["src"]])
             else:
                 depth.append(0)
         k = "depth%d" % max(depth)
